@@ -1112,6 +1112,8 @@ fn mutants(ctx: &Sexp, items: &[Sexp], rng: &mut Rng, per_node: usize) -> Vec<(S
     for (path, node) in &sites {
         let head = match node.head() { Some(h) => h, None => continue };
         let mut variants: Vec<(Sexp, &'static str)> = vec![];
+        // two-point variants (kept apart: they are sampled separately from the single-point ones)
+        let mut coherent: Vec<(Sexp, &'static str)> = vec![];
         if EXPR_HEADS.contains(&head) {
             variants = expr_node_mutations(node, &typer, rng);
         } else if head == "ref" {
@@ -1131,6 +1133,27 @@ fn mutants(ctx: &Sexp, items: &[Sexp], rng: &mut Rng, per_node: usize) -> Vec<(S
             let a = node.args();
             let alt: &[&str] = match a[1].as_atom() { "assign" => &["add", "band"], "add" | "sub" | "mul" | "div" | "rem" => &["shl", "bor"], _ => &["add", "assign"] };
             for o in alt { variants.push((app("assign", vec![a[0].clone(), atom(o), a[2].clone()]), "operator")); }
+            // target and value retyped together under every operator class (two-point changes: the sides agree
+            // with each other, the operator may not take that type; or they differ while the result type of the
+            // operator equals the target's)
+            for o in ["assign", "add", "rem", "band", "bor", "xor", "shl", "ushr"] {
+                for (tt, vt) in [('f', 'f'), ('i', 'f'), ('f', 'i')] {
+                    if o == a[1].as_atom() && tt != vt { continue; }
+                    let target = app("ref", vec![atom("r"), int(reg_of(tt, rng)), atom("n")]);
+                    let value = if rng.chance(1, 2) { lit_of(vt, rng) } else { app("reg", vec![int(reg_of(vt, rng)), atom("n")]) };
+                    coherent.push((app("assign", vec![target, atom(o), value]), "both-slots"));
+                }
+            }
+        } else if head == "timesc" {
+            // both slots of `times(x = n)` retyped together: the counter and the count agree with each other but not with
+            // the rule that both are int (a check that only compares the two sides accepts it)
+            let a = node.args();
+            for (rt, lt) in [('f', 'f'), ('u', 'i')] {
+                let mut v = a.to_vec();
+                v[0] = app("ref", vec![atom("r"), int(reg_of(rt, rng)), atom(if rt == 'u' { "f" } else { "n" })]);
+                v[1] = if rt == 'u' { let _ = lt; lit_of('f', rng) } else if rng.chance(1, 2) { lit_of('f', rng) } else { app("reg", vec![int(reg_of('f', rng)), atom("n")]) };
+                coherent.push((app("timesc", v), "both-slots"));
+            }
         } else if head == "func" && node.args().len() > 3 {
             // another return type: every `return` of the body is affected
             let a = node.args();
@@ -1139,11 +1162,23 @@ fn mutants(ctx: &Sexp, items: &[Sexp], rng: &mut Rng, per_node: usize) -> Vec<(S
             let a = node.args();
             if a.is_empty() { variants.push((app("ret", vec![lit_of('i', rng)]), "operand")); } else { variants.push((app("ret", vec![]), "operand")); }
         }
+        if head == "bin" {
+            // both operands of a binary operator retyped together
+            let a = node.args();
+            for t in ['i', 'f'] {
+                let l = if rng.chance(1, 2) { lit_of(t, rng) } else { app("reg", vec![int(reg_of(t, rng)), atom("n")]) };
+                let r = if rng.chance(1, 2) { lit_of(t, rng) } else { app("reg", vec![int(reg_of(t, rng)), atom("n")]) };
+                coherent.push((app("bin", vec![a[0].clone(), l, r]), "both-slots"));
+            }
+        }
         let kind = stmt_kind_at(&whole, path);
         // `const` initialisers may not mention raw registers or instructions (rejected before
         // type checking, by `assign_languages`)
         if in_const(&whole, path) { variants.retain(|(v, _)| !has_head(v, "reg") && !has_head(v, "call") && !has_head(v, "callx") && !has_head(v, "ref")); }
         if variants.len() > per_node { rng.shuffle(&mut variants); variants.truncate(per_node); }
+        if in_const(&whole, path) { coherent.clear(); }
+        if coherent.len() > per_node { rng.shuffle(&mut coherent); coherent.truncate(per_node); }
+        variants.extend(coherent);
         for (v, tag) in variants {
             out.push((ctx.clone(), replace(&whole, path, &v), format!("mut-{tag}@{kind}")));
         }
@@ -1385,7 +1420,7 @@ impl Prop for C09 {
         "prog / xprog: Ok / Err(first diagnostic class) of passes::type_check::run on the parsed, resolved script file == Lean `checkStmts codeCfg` (model of Visitor::visit_stmt incl. which statement kinds it walks); expr / xexpr: Ok(compute_ty) / Err class == Lean `check`; every result is also judged against an independent reference typer written from the documented rules (executable counterpart of Lean `HasType` / `WellTypedStmts` / `WritesOk`); x* = the extended language (difficulty switches, ++ / --, enum constants, label properties, pseudo-arguments, user-defined functions with parameters, multi-variable declarations, return at any depth)"
     }
     fn rule(&self) -> &'static str {
-        "type-directed random programs (global consts, inline functions with return, scripts; assignments and compound assignments, declarations with/without initialiser incl. untyped `var`, const declarations, instruction calls against 8 signatures incl. padding and string parameters, if / else-if / else, while, do-while, loop, times with and without clobber, conditional goto/break, interrupt and time labels, free blocks nested up to depth 4) and ALL their single-point mutations: every expression node at every depth (literal, operand, variable, sigil, cast, operator, argument, arity, opcode), every assignment/clobber target, every assignment operator, every return, every declared type; plus standalone expressions with their mutations; a second stream of the same shape over the extended language: every expression position may hold a difficulty switch (blank cases), ++ / --, a qualified or bare enum constant, offsetof / timeof, a call of a user-defined function; calls with @mask / @pop / @arg0 / @nargs / @blob; 1-3 functions with int / float / var parameters (inline, const, exported) per file, multi-variable declarations and const items, return at every depth, label expressions that are switches / enum constants; additional mutations: one switch case to another type, blank cases added / removed, ++ / -- operand to a float / untyped / constant variable, pseudo-argument kind / value type / blob next to arguments / on a user function, user-call arity and argument types, parameter types, function return types; the two repaired findings (e098828, e91a1bf) replayed on the real compiler (TH08 ANM, TH10 ECL); non-trivial = mutated program or nesting depth >= 2; distinct by case text"
+        "type-directed random programs (global consts, inline functions with return, scripts; assignments and compound assignments, declarations with/without initialiser incl. untyped `var`, const declarations, instruction calls against 8 signatures incl. padding and string parameters, if / else-if / else, while, do-while, loop, times with and without clobber, conditional goto/break, interrupt and time labels, free blocks nested up to depth 4) and ALL their single-point mutations: every expression node at every depth (literal, operand, variable, sigil, cast, operator, argument, arity, opcode), every assignment/clobber target, every assignment operator, every return, every declared type; two-point changes where both slots of one construct are retyped together (target and value of an assignment under every operator class, counter and count of `times(x = n)`, both operands of a binary operator); plus standalone expressions with their mutations; a second stream of the same shape over the extended language: every expression position may hold a difficulty switch (blank cases), ++ / --, a qualified or bare enum constant, offsetof / timeof, a call of a user-defined function; calls with @mask / @pop / @arg0 / @nargs / @blob; 1-3 functions with int / float / var parameters (inline, const, exported) per file, multi-variable declarations and const items, return at every depth, label expressions that are switches / enum constants; additional mutations: one switch case to another type, blank cases added / removed, ++ / -- operand to a float / untyped / constant variable, pseudo-argument kind / value type / blob next to arguments / on a user function, user-call arity and argument types, parameter types, function return types; the two repaired findings (e098828, e91a1bf) replayed on the real compiler (TH08 ANM, TH10 ECL); non-trivial = mutated program or nesting depth >= 2; distinct by case text"
     }
     fn theorems(&self) -> &'static [&'static str] {
         &["TruthModel.C09.check_sound", "TruthModel.C09.check_complete", "TruthModel.C09.computeTy_agrees", "TruthModel.C09.stmts_accept_iff_welltyped", "TruthModel.C09.stmts_accept_iff_welltyped_for_cfg", "TruthModel.C09.stmts_accept_iff_welltyped_status", "TruthModel.C09.type_preservation", "TruthModel.C09.computeTy_agrees_status", "TruthModel.C09.check_rejects_const_xcrement", "TruthModel.C09.check_rejects_const_xcrement_status", "TruthModel.C09.xcrement_const_rejected", "TruthModel.C09.decls_eq_sequence", "TruthModel.C09.return_checked_at_every_depth"]
